@@ -157,58 +157,87 @@ THEOREMS = [
 
 RULE = ("Real kvarn::handle_connection on loopback TCP pairs, TLS by a rustls ServerConfig from HostCollection::make_config (ALPN from "
         "host::alpn(), self-signed rcgen certificate on the host, as kvarn_testing::ServerBuilder builds it). (1) proto.pair: the SAME "
-        "history of 4-9 requests is sent over one HTTP/1.1 connection (raw client with strict content-length framing; over TLS with ALPN "
+        "history of 4-14 requests is sent over one HTTP/1.1 connection (raw client with strict content-length framing; over TLS with ALPN "
         "http/1.1, or plain TCP) to host A and over one HTTP/2 connection (h2 crate client over tokio-rustls, ALPN h2) to an identical "
-        "fresh host B; the ALPN result is asserted. Hosts: response cache on/off x handler pages (compressible text with "
-        "ServerCachePreference Full / None, QueryMatters page echoing path?query, method echo, a page whose handler sets its own "
-        "content-length, pages whose handlers leave connection-specific headers (keep-alive, connection, upgrade, te, "
-        "proxy-connection), empty body, 404/500 handler pages) + files (text, binary, index.html) + missing paths + unsafe paths "
-        "(/./x) + echo handlers that read the request body completely (/echo, read_to_bytes(1 MiB)) or only its first 3 / 100 bytes "
-        "(/echo3, /echo100); Package menus (or_insert / insert / remove / append, 0-3 "
-        "extensions in priority order). Requests: GET/HEAD/POST/OPTIONS/PUT/DELETE/PATCH x Accept-Encoding {none, gzip, br, identity, gzip;q=0, "
-        "*;q=0 identity;q=0} x Range around the length of the ENCODED representation (a>b, a=len, open forms) x If-Modified-Since "
-        "(future / past / garbage; cold and warm cache) x Origin x query strings x REQUEST BODIES of 1 B - 150 kB (around the limits of "
-        "the partial readers and around the HTTP/2 initial flow-control window 65535, so that WINDOW_UPDATEs are needed) sent to "
-        "whatever answers: a handler that reads all, part or nothing of it, files (405), missing paths, cache hits, refused Ranges "
-        "(416) and unsafe paths (400), a body that looks like a request - written with the head, some ms later, or (unread ones) only "
-        "after the answer has been read, so that the server must take it from the connection - each followed by the rest of the "
-        "history on the SAME connection and a sentinel request that checks the framing; the h2 client keeps the default 65535-byte "
-        "windows, so echoed 70 kB / 150 kB answers need its WINDOW_UPDATEs. proto.answered: histories made of such requests; the "
-        "implementation's (every request answered on HTTP/1.1?, on HTTP/2?) against the model's connection loop and the "
-        "specification (yes, yes). Oracles: (a) parity itself, independent of "
-        "the model: status, all headers except {connection, keep-alive, proxy-connection, transfer-encoding, upgrade, te, "
-        "content-length, alt-svc} as sorted "
-        "multisets (last-modified value masked) and body bytes of the two protocols are equal; (b) both equal the Coq specification "
-        "proto.pair_spec (range_spec of C09 on the layer-4 response, package menu on end-to-end headers, body unless HEAD); (c) the "
-        "complete wire answers (version, every header incl. content-length / connection / alt-svc) equal the extracted model "
-        "send H1 / send H2. The layer-4 response of every request (kvarn::handle_cache's CacheReply) and the host's 416 page are "
-        "observed in process on a third identical fresh host running the same history (proto.l4) and are inputs of model and spec. "
-        "proto.server: a sample of the histories through two complete servers started by RunConfig::execute on loopback ports "
-        "(listener, accept loop, TLS + ALPN, connection tasks, graceful shutdown), same model and oracles. "
-        "(2) proto.burst: 2-32 requests sent AT ONCE as streams of one HTTP/2 connection to one fresh host: H_slow handlers sleeping a "
-        "seeded 0-250 ms (x-delay header) so that handlers finish in a seeded order unrelated to the stream order, several streams per "
-        "page, cacheable and uncacheable pages, cache on/off, HEAD, ranges, Accept-Encoding, files, 404s, POST echo with a distinct "
-        "body per stream (up to 70 kB) and bodies that are read in part or not at all (also by the slow handlers); proto.burst1: the same burst over as many concurrent HTTP/1.1 TLS connections. Oracle: every stream's "
-        "answer equals send H2 (H1) of the layer-4 response of ITS request alone on a fresh host (proto.burst_spec), equals the "
-        "two-block task model run in the schedule derived from the delays (correspondence), and equals the answer the real server "
-        "gives the same request alone over a fresh connection to a fresh host (proto.alone / proto.alone1, same model). "
-        "distinct_nontrivial = distinct (input, sequence of (status, cache/encoding class)) pairs")
+        "fresh host B; the ALPN result is asserted. Hosts: response cache on/off (every directed history runs on both) x handler pages "
+        "(compressible text with ServerCachePreference Full / None, QueryMatters page echoing path?query, method echo, a page whose "
+        "handler sets its own content-length, empty body, 404/500 handler pages) + pages whose handlers leave CONNECTION-SPECIFIC "
+        "headers: every single one of keep-alive, proxy-connection, transfer-encoding, upgrade, te (gzip / trailers) WITHOUT a connection "
+        "header, all at once, with connection: close / keep-alive / upgrade, connection nominating a custom header, and three pages per "
+        "random host with seeded random subsets + STREAMED responses (a ResponsePipeFuture writing known chunks incl. an empty one: "
+        "with_future_and_len, with_future + the handler's own content-length, a Response body followed by a future, 81 kB = more than an "
+        "HTTP/2 window, a slow future, an empty stream, an error status; extensions::stream_body() on files of 0 B / 180 B / 100 kB) + "
+        "files (text, binary, index.html) + missing paths + unsafe paths (/./x) + echo handlers that read the request body completely "
+        "(/echo, read_to_bytes(1 MiB)) or only its first 3 / 100 / 20000 / 33000 bytes - and echo UNCUT what read_to_bytes returned; "
+        "Package menus (or_insert / insert / remove / append, 0-3 extensions in priority order); two hosts per run with the request "
+        "LIMITER on (the first k requests pass, the rest - GET, HEAD, POST with a body, and the framing sentinel - are answered 429 by "
+        "handle_connection); two hosts per run with 64 KiB and 1 MiB compressible pages (identity / gzip / br, cold and cached, ranged, HEAD; "
+        "the h2 client keeps 65535-byte windows). Requests: GET/HEAD/POST/OPTIONS/PUT/DELETE/PATCH x Accept-Encoding {none, gzip, br, identity, "
+        "gzip;q=0, *;q=0 identity;q=0 (406)} x Range around the length of the ENCODED representation and of the streamed files (a>b, "
+        "a=len, beyond the end, open forms) x If-Modified-Since (future / past / garbage; cold and warm cache) x Origin x query strings x "
+        "REQUEST BODIES of 1 B - 150 kB (around the limits of the partial readers, around the 16384-byte DATA frame size and around the "
+        "HTTP/2 initial window 65535; position-stamped so that a prefix is recognisable) sent to whatever answers: a handler that reads "
+        "all, part or nothing of it, streamed pages, files (405), missing paths, cache hits, refused Ranges (416), unsafe paths (400), the "
+        "limiter (429) - written with the head, some ms later, or (unread ones) only after the answer has been read - each followed by "
+        "the rest of the history on the SAME connection and a sentinel request that checks the framing. proto.answered: histories of "
+        "such requests; (every request answered on HTTP/1.1?, on HTTP/2?) against the model's connection loop and the specification "
+        "(yes, yes); a 'no' counts only if three runs agree. Oracles: (a) parity itself, independent of the model: status, all headers "
+        "except {connection, keep-alive, proxy-connection, transfer-encoding, upgrade, te, content-length, alt-svc} as sorted multisets "
+        "(last-modified value masked) and body bytes of the two protocols are equal, a HEAD answer has no body, content-length = body "
+        "length; (b) both equal the Coq specification proto.pair_spec (range_spec of C09 on the layer-4 response - not on streamed ones -, "
+        "package menu on end-to-end headers, body ++ streamed bytes unless HEAD, the limiter's page as it is); (c) the complete wire "
+        "answers (version, every header incl. content-length / connection / alt-svc) equal the extracted pipe-level model send_pipe H1 / "
+        "H2. The layer-4 response of every request (kvarn::handle_cache's CacheReply), WHAT ITS FUTURE WRITES (driven in process through "
+        "a plain pipe) with the overridden length, the host's 416 page and the limiter's 429 page are observed in process on a third "
+        "identical fresh host running the same history (proto.l4) and are inputs of model and spec. proto.server: a sample of the "
+        "histories through two complete servers started by RunConfig::execute on loopback ports (claimed through lock files: unique among "
+        "all harness processes; listener, accept loop, TLS + ALPN, connection tasks, graceful shutdown), same model and oracles. "
+        "(2) proto.burst: 2-100 requests sent AT ONCE as streams of one HTTP/2 connection (proto.burst2: spread over TWO connections "
+        "open at once) to one fresh host on a multi-thread runtime: H_slow handlers sleeping a seeded 0-250 ms so that handlers finish "
+        "in a seeded order unrelated to the stream order, several streams per page, cacheable and uncacheable pages, cache on/off, "
+        "HEAD, ranges, Accept-Encoding, files, streamed pages, 404s, POST echo with a distinct body per stream (up to 70 kB, partly read "
+        "ones too), bodies nobody reads, and ~12 % of the slow streams CANCELLED by the client (RST_STREAM(CANCEL) 0-150 ms after the "
+        "request: before, while or after the handler runs); proto.burst1: the same burst over as many concurrent HTTP/1.1 TLS "
+        "connections (cancelled = the client goes away). Oracle: every stream that was not cancelled receives the answer send_pipe H2 "
+        "(H1) gives the layer-4 response of ITS request alone on a fresh host (proto.burst_spec), equal to the two-block task model run "
+        "in the schedule derived from the delays, and to what the real server answers the same request alone over a fresh connection "
+        "(proto.alone / proto.alone1); the connections answer a sentinel afterwards. (3) proto.body: a handler calling "
+        "read_to_bytes(l) on a body of 1 B - 150 kB sent over HTTP/1.1 (a seeded part of it in the same write as the head) and over "
+        "HTTP/2 in DATA frames of seeded lengths (1 .. 16384, one send_data each): what each call returned on each protocol against "
+        "the transcribed loops (h1_read_to_bytes / h2_read_loop) and the specification (the first min(l, length) bytes on both). "
+        "(4) proto.sbody: extensions::stream_body() in process on files and Ranges (inside, across, at and beyond the end): bytes written "
+        "and length announced against stream_plan. A failure of an exchange that is a time-out or a connection that cannot be opened "
+        "is never an outcome (the case is run again, then counted as not executed); any other failure is an outcome only when it repeats "
+        "identically on three runs with fresh hosts. distinct_nontrivial = distinct (input, sequence of (status, cache/encoding class)) pairs")
 ASSUMPTIONS = [
-    "Package extensions are oblivious to the response version and to connection-level headers (pkg_oblivious; proved for the "
-    "harness's menu whenever it names no hop header: pkg_menu_is_oblivious); status rewriting by a Package extension is not modelled",
-    "h2's check_headers (the only condition under which the h2 crate refuses a response head) is transcribed; h2_never_refuses "
-    "shows the repaired HTTP/2 arm never triggers it",
+    "Package extensions are oblivious to the response version and to connection-level headers (pkg_oblivious) and leave content-length "
+    "alone (pkg_keeps_length: on HTTP/1 that header is the framing); both proved for the harness's menu whenever it names no hop header "
+    "(pkg_menu_is_oblivious, pkg_menu_keeps_content_length); status rewriting by a Package extension is not modelled",
+    "h2's check_headers (the only condition under which the h2 crate refuses a response head) is transcribed; h2_never_refuses / "
+    "connection_headers_filter_total show the repaired HTTP/2 arm never triggers it, for every header set",
+    "the client's framing is part of the model (receive): an HTTP/1.1 body is the content-length bytes after the head (none for HEAD), "
+    "an HTTP/2 body the DATA frames up to END_STREAM, refused by the h2 client when they contradict a content-length or follow a HEAD "
+    "answer - transcribed from the harness's raw HTTP/1.1 client and observed behaviour of the h2 0.4 client, not from a specification "
+    "of all clients",
+    "streamed responses: the length a handler announces (with_future_and_len, or its own content-length with with_future) is the "
+    "number of bytes Response::body and the future write (fut_framed) - proved for extensions::stream_body() as repaired "
+    "(stream_body_framed), a precondition on other handlers; a future that gives up at the first failed write; WebSocket futures "
+    "(no length at all: not a response body) and Post extensions are outside; no range is applied to a streamed response (kvarn's "
+    "is_stream) - stream_body slices the file itself",
     "stream_independence: the handler contract of C03 (response a function of method class, path, vary tuple and - for "
     "QueryMatters - the query; uniform query-matters-ness per path; error responses uncacheable), requests without "
     "If-Modified-Since (a conditional request is answered 304 or 200 depending on whether another stream has filled the cache "
     "- legitimately order-dependent), the cache's last-modified wall-clock stamp masked; task granularity = two atomic blocks "
-    "(lookup / insert) separated by the await on the handler; moka as a finite map whose capacity is never reached",
+    "(lookup / insert) separated by the await on the handler; moka as a finite map whose capacity is never reached; a stream the "
+    "client cancels is a stream whose answer is not observed (its task may run none, one or both of its blocks: every schedule is "
+    "covered); the tasks of two connections to one host share exactly what the tasks of one connection share (the host)",
     "compression: the representation clone_preferred chooses is a function of request and response, not of the cache path "
     "(the harness gives compression_options_oneshot = compression_options_cached); which bytes a compressor emits is external: "
     "the layer-4 response is observed, not predicted",
     "requests both protocols can express: lower-case header names, no host/connection/keep-alive/transfer-encoding/upgrade/te "
     "request headers, origin-form target, a request body announced by content-length on both protocols and sent completely; no "
-    "streaming (WebSocket / ResponsePipeFuture) responses, no HTTP/2 server push, HTTP/3 not exercised (UDP/QUIC)",
+    "HTTP/2 server push, HTTP/3 not exercised (UDP/QUIC); the 409 answer for an unknown host is modelled (send_direct) but not "
+    "exercised (every request reaches the one host)",
     "request bodies only with methods whose content-length kvarn's HTTP/1 reader honours (utils::get_body_length_request returns 0 "
     "for GET/HEAD/OPTIONS/CONNECT/TRACE whatever content-length says - as in C08, a GET that carries a body is outside: the "
     "hypothesis body_declared of history_parity / pair_history_answered; undeclared_request_body_refuted shows in the model that "
@@ -217,6 +246,11 @@ ASSUMPTIONS = [
     "h1-undeclared-request-body, the only input of that kind the generators send); history_parity additionally assumes that no "
     "answer makes a task panic, which send_never_panics proves for every sanitize_data that sanitize_request can produce and "
     "bodies below 2^64 bytes",
+    "which bytes a handler gets: read_to_bytes_parity is about the FIRST read_to_bytes call of a handler (every body, every framing, "
+    "every limit; the HTTP/1 client sends exactly the declared bytes); a handler that calls it again after a call that hit its limit "
+    "is the known class h2-body-read-again (second_read_refuted; its witness is replayed on every run and is the only such input); a "
+    "first limit of 0 is not generated (HTTP/1 then leaves content_length untouched, HTTP/2 drops the first frame); a handler's answer "
+    "is a function of the request and of the bytes it read - equal bytes, equal answers",
     "the HTTP/1 client writes the declared body with the head, a few ms after it, or - for targets whose handlers never read a "
     "body - only after it has read the answer (then Http1Body::drain has to take all of it from the connection; this is the only "
     "segmentation that decides a verdict, and it does not depend on timing); bodies <= 150 kB, answers to unread ones < 1 kB: no "
@@ -226,59 +260,82 @@ ASSUMPTIONS = [
 TRUSTED = [
     "modelled (Model/Protocols.v): src/lib.rs handle_connection (alt-svc append, per-request task for HTTP/2, the HTTP/1 request loop "
     "with the fate of a request body: Http1Body::new's early bytes, read_to_bytes(l) taking min(declared, l), Http1Body::drain of "
-    "fix dfe4d54 - and the loop before that fix as the variant drain = false), SendKind::send (range "
-    "application incl. the 416 replacement, ensure_length, ensure_version, resolve_package, body/HEAD rule), src/application.rs "
-    "ResponsePipe::{ensure_length, ensure_version, send_response} HTTP/1 and HTTP/2 arms (connection: keep-alive rule, "
-    "remove_connection_specific_headers); utils::get_body_length_request (which methods have a declared body); "
+    "fix dfe4d54 - and the loop before that fix as the variant drain = false; the limiter's 429 / the 409 answer: send_direct), "
+    "SendKind::send (range application incl. the 416 replacement - skipped for streamed responses -, the overridden length, "
+    "ensure_length, ensure_version, resolve_package, then the OPERATIONS ON THE PIPE in order: send_response(head, false), the body "
+    "unless HEAD, the future's writes - not for HEAD: fix 572c88a, head_future = true is the code before -, close), src/application.rs "
+    "ResponsePipe::{ensure_length, ensure_version, send_response} and ResponseBodyPipe::{send_with_maybe_close, close} HTTP/1 and "
+    "HTTP/2 arms (connection: keep-alive rule, remove_connection_specific_headers, END_STREAM, send_data failing on an ended stream), "
+    "Body::read_to_bytes HTTP/1 (Http1Body) and HTTP/2 (the DATA-frame loop) arms; utils::get_body_length_request; "
+    "extensions::stream_body's range arithmetic (stream_plan; fix 7cbe1e5, clamp = false is the code before); "
     "h2 0.4 proto/streams/send.rs check_headers (the only h2 logic transcribed)",
     "NOT modelled, exercised only: rustls (handshake, records, ALPN selection), h2 (HPACK, flow control incl. the WINDOW_UPDATEs "
-    "Body::read_to_bytes releases and the RST_STREAM(NO_ERROR) after an answer whose request body was not read, frame scheduling, "
-    "stream state machine, the client-side content-length check), tokio task scheduling, moka; src/encryption.rs; the request "
-    "readers (kvarn_async::read::request is C07's; which BYTES read_to_bytes returns on either protocol is observed through the "
-    "echo pages, not modelled: the model has the number of bytes taken only)",
+    "Body::read_to_bytes releases, the windows a 1 MiB / streamed 81 kB answer needs, and the RST_STREAM(NO_ERROR) after an answer "
+    "whose request body was not read, frame scheduling and the splitting of send_data into frames, stream state machine, RST_STREAM "
+    "from the client, the client-side content-length check), tokio task scheduling (multi-thread runtime, 3 workers), moka; "
+    "src/encryption.rs; the request head reader (kvarn_async::read::request is C07's); kvarn's rate limiter (C12's: which requests it "
+    "limits is an input here)",
     "layer 4 (handle_cache and below) is C03's model in the theorems and an OBSERVATION of the real handle_cache on an identical "
-    "fresh host in the correspondence (proto.l4); the twin hosts are deterministic functions of the configuration",
+    "fresh host in the correspondence (proto.l4: response, sanitize class, what the response's future writes and the overridden "
+    "length); the twin hosts are deterministic functions of the configuration",
     "harness/src/c20.rs: raw HTTP/1.1 client (strict status line / header / content-length framing, sentinel request), h2 client "
-    "driver, rcgen certificate, Package / H_slow / echo / echon extensions; header multisets are sorted before comparison, the value "
-    "of last-modified is masked; the echon handler cuts what read_to_bytes(l) returns to l bytes (the in-memory Body::Bytes of the "
-    "layer-4 probe ignores the limit)",
+    "driver, rcgen certificate, Package / H_slow / echo / echon / echo2 / stream / read-body extensions; header multisets are sorted "
+    "before comparison, the value of last-modified is masked; the echo handlers echo what read_to_bytes returned UNCUT on a "
+    "connection (only the in-memory Body::Bytes of the layer-4 probe, which ignores the limit and is neither protocol, is cut to "
+    "the limit: that yields the specification 'the first l bytes'); the classification of failures into harness trouble / outcome "
+    "(is_trouble, three agreeing runs)",
 ]
-LEVEL_TEXT = ("partial. Machine-checked Coq theorems over an executable model of the protocol-dependent send path above the shared "
-              "layer 4 of C03: protocol_parity / send_parity (for every host configuration, cache state, request, layer-4 response, "
-              "TLS or plain HTTP/1 connection and oblivious Package chain the HTTP/1.1 and HTTP/2 answers are equal after dropping the "
-              "version and exactly the headers connection, keep-alive, proxy-connection, transfer-encoding, upgrade, te, "
-              "content-length, alt-svc - proved, not sampled: nothing else differs; h2_never_refuses: the h2 crate's header check "
-              "never rejects the head the repaired HTTP/2 arm produces), head_parity (HEAD = GET minus body on both "
-              "protocols), stream_independence (for every set of concurrent streams and EVERY schedule of the tasks' lookup and "
-              "completion blocks over the shared response cache, every stream receives byte for byte the HTTP/2 answer of its own "
-              "request alone, under C03's handler contract), streams_answered_exactly_once, and - request bodies - history_parity "
-              "(for every host configuration and state and EVERY history of requests on one connection, each with a declared request "
-              "body of any length that its handler reads completely, in part or not at all, segmented arbitrarily: the repaired "
-              "HTTP/1 connection, like the HTTP/2 one, answers every request, by the application in the state its predecessors left, "
-              "and the two answer sequences are equal up to the same filter; hypothesis: no answer panics, discharged by "
-              "send_never_panics), pair_history_answered (the executable history model of the correspondence equals its "
-              "specification on every input of the domain) and the two witnesses unread_request_body_v0_refuted (the loop before "
-              "fix dfe4d54 answers the PUT-with-refused-Range witness's second request on HTTP/2 only) and "
-              "undeclared_request_body_refuted (the domain hypothesis cannot be dropped: a GET carrying body bytes). "
-              "The model is tied to /repo on every run "
-              "by real TLS loopback connections through kvarn::handle_connection with an HTTP/1.1 and an HTTP/2 client (full wire "
-              "answers vs. the extracted model, parity and specification oracles, multiplexed bursts with seeded handler delays vs. "
-              "each request alone, histories with unread / partly read / large request bodies on both protocols). NOT proved, only "
-              "exercised by that run: everything inside the h2 and rustls crates - HPACK, flow "
-              "control (window updates for large request bodies, the reset after an unread one), stream scheduling and state machine, "
-              "TLS and ALPN - and the tokio scheduler; the concurrency theorem is about "
-              "sequentially consistent interleavings of two atomic blocks per task; which bytes a partial read returns is observed, "
-              "the model only has how many are taken. The former known class h1-unread-request-body was repaired by kvarn commit "
-              "dfe4d54 and is now part of the claim. One known class, outside the property's quantifier (the C08 generator sends no "
-              "such request): h1-undeclared-request-body - kvarn's HTTP/1 reader ignores the content-length of GET / HEAD / OPTIONS "
-              "(by design: its unit test expects it), so body bytes of a GET that arrive after its head break the HTTP/1.1 "
-              "connection and not the HTTP/2 one; the theorems carry the hypothesis, the witness is replayed on every run.")
+LEVEL_TEXT = ("partial. Machine-checked Coq theorems (24, statements pinned) over an executable model of the protocol-dependent path above "
+              "the shared layer 4 of C03: protocol_parity / send_parity (for every host configuration, cache state, request, layer-4 "
+              "response, TLS or plain HTTP/1 connection and oblivious Package chain the HTTP/1.1 and HTTP/2 answers are equal after "
+              "dropping the version and exactly the headers connection, keep-alive, proxy-connection, transfer-encoding, upgrade, te, "
+              "content-length, alt-svc - proved, not sampled: nothing else differs; h2_never_refuses and "
+              "connection_headers_filter_total: for EVERY header set - every subset of the connection-specific headers, with or "
+              "without connection - the head the repaired HTTP/2 arm hands to h2 passes h2's check and no end-to-end header is "
+              "touched), head_parity (HEAD = GET minus body on both protocols); the RESPONSE PIPE: send_is_pipe_send (the model "
+              "of the operations on the pipe - head, body unless HEAD, close - and of the client's framing of what arrives IS send), "
+              "streamed_answer and stream_parity (a response with a streaming future, every chunk list, method and protocol: the "
+              "client receives one well-framed response whose body is Response::body followed by what the future wrote - nothing "
+              "for HEAD - and the two protocols agree up to the same filter, whenever the announced length is the number of bytes "
+              "written; stream_body_framed: extensions::stream_body as repaired meets that for every file and Range), "
+              "limiter_answer_parity (the 429 / 409 answers handle_connection sends itself); stream_independence (for every set of "
+              "concurrent streams and EVERY schedule of the tasks' lookup and completion blocks over the shared response cache, every "
+              "stream receives byte for byte the HTTP/2 answer of its own request alone, under C03's handler contract - cancelled "
+              "streams and a second connection are covered by the quantification over schedules), streams_answered_exactly_once; "
+              "REQUEST BODIES: history_parity (for every host configuration and state and EVERY history of requests on one "
+              "connection, each with a declared request body of any length that its handler reads completely, in part or not at "
+              "all, segmented arbitrarily: the repaired HTTP/1 connection, like the HTTP/2 one, answers every request, by the "
+              "application in the state its predecessors left, and the two answer sequences are equal up to the same filter; "
+              "hypothesis: no answer panics, discharged by send_never_panics), read_to_bytes_parity (for every body, every cut "
+              "into DATA frames, every amount arriving with the HTTP/1 head and every limit the first read_to_bytes(l) returns the "
+              "first l bytes on both protocols), pair_history_answered (the executable history model of the correspondence - "
+              "ordinary, streamed and limiter-answered exchanges - equals its specification on every input of the domain); and "
+              "five witnesses: unread_request_body_v0_refuted (the loop before fix dfe4d54), head_stream_v0_refuted (before fix "
+              "572c88a a HEAD for a streamed response got the streamed bytes: broken framing on both protocols), "
+              "stream_body_v0_refuted (before fix 7cbe1e5 stream_body announced more bytes than it sent for a Range beyond the "
+              "file), undeclared_request_body_refuted and second_read_refuted (the two known classes). The model is tied to /repo "
+              "on every run by real TLS loopback connections through kvarn::handle_connection with an HTTP/1.1 and an HTTP/2 "
+              "client (full wire answers vs. the extracted model, parity and specification oracles; streamed responses, every "
+              "connection-header subset, limiter answers, 64 KiB / 1 MiB compressed bodies, cached and uncached; bursts of up to 100 "
+              "streams with seeded handler delays, cancelled streams and two connections vs. each request alone; histories with "
+              "unread / partly read / large request bodies; what read_to_bytes returns per protocol). NOT proved, only exercised "
+              "by that run: everything inside the h2 and rustls crates - HPACK, flow control, frame splitting and scheduling, stream "
+              "state machine, RST_STREAM handling, TLS and ALPN - and the tokio scheduler; the concurrency theorem is about "
+              "sequentially consistent interleavings of two atomic blocks per task. Two kvarn defects found by this round were "
+              "repaired (572c88a, 7cbe1e5) and are part of the claim, as is the former known class h1-unread-request-body (dfe4d54). "
+              "Two known classes, both outside the property's quantifier: h1-undeclared-request-body (kvarn's HTTP/1 reader ignores "
+              "the content-length of GET / HEAD / OPTIONS by design, so body bytes of a GET that arrive after its head break the "
+              "HTTP/1.1 connection and not the HTTP/2 one) and h2-body-read-again (a handler calling read_to_bytes a second time "
+              "after a call that hit its limit gets nothing on HTTP/1.1 and the later DATA frames on HTTP/2; Body::Http2 has no "
+              "place to remember it); the theorems carry the hypotheses, both witnesses are replayed on every run.")
 LEVEL_NOTE = ("Trusted: Coq kernel; extraction (sample re-checked in-kernel); the hand transcription of SendKind::send / ResponsePipe / "
-              "handle_connection's request loop into Model/Protocols.v as validated by the differential run; h2 and rustls as black "
-              "boxes; layer 4 observed on a twin host; request bodies only where kvarn's HTTP/1 reader honours content-length "
-              "(not GET/HEAD/OPTIONS). No axioms.")
-TECHNIQUE = ("Coq proof (equality up to an explicit header filter; inductive invariant over all schedules, reusing C03's simulation) + "
-             "differential correspondence over real TLS connections with both protocols")
+              "ResponseBodyPipe / Body::read_to_bytes / handle_connection's request loop / stream_body's range arithmetic into "
+              "Model/Protocols.v and of the clients' framing into receive, as validated by the differential run; h2 and rustls as "
+              "black boxes; layer 4 and stream futures observed on a twin host; request bodies only where kvarn's HTTP/1 reader "
+              "honours content-length (not GET/HEAD/OPTIONS), first read_to_bytes call only. No axioms.")
+TECHNIQUE = ("Coq proof (equality up to an explicit header filter; a small-step model of the response pipe with the client's framing; "
+             "inductive invariant over all schedules, reusing C03's simulation; induction over DATA frames) + differential "
+             "correspondence over real TLS connections with both protocols")
 
 # The extracted model recurses over byte lists (List.length, firstn, ++ are not tail-recursive): a 1 MiB body needs more than the
 # default 8 MiB of stack.  The model driver and the harness are children of this process: give them the hard limit.
@@ -1029,6 +1086,18 @@ def spec_ok(c, i, s):
     ci, cs = canon(iv), canon(sv)
     if ci == cs:
         return True
+    if c.comp == "proto.body":
+        try:
+            body, limits = c.x[1][0][1], [l[1] for l in c.x[1][3][1]]
+            h1, h2 = [b[1] for b in iv[1][0][1]], [b[1] for b in iv[1][1][1]]
+            def show(rs):
+                return ", ".join("%d bytes%s" % (len(r), "" if body.startswith(r) else " (NOT a prefix of the body)") for r in rs)
+            c.meta["why"] = ("a %d-byte request body, handler calling read_to_bytes(%s): over HTTP/1.1 it got %s; over HTTP/2 (DATA frames %s...) it got "
+                             "%s; specified: the first min(limit, length) bytes, then nothing"
+                             % (len(body), "), read_to_bytes(".join(map(str, limits)), show(h1), [f[1] for f in c.x[1][1][1]][:6], show(h2)))
+        except Exception:
+            pass
+        return False
     # which stream did not get the answer of its own request?
     try:
         if ci[1] and ci[1][0][0] == "N":
@@ -1117,7 +1186,13 @@ def signature(c, m):
 def extra_coverage(cases, impl, model, spec):
     pairs = [c for c in cases if c.comp in PAIRS]
     bursts = [c for c in cases if c.comp in ("proto.burst", "proto.burst1", "proto.burst2")]
-    return {"histories_through_both_protocols": len(pairs),
+    import re
+    statuses = {}
+    for c in cases:
+        for st in re.findall(r"\(L \(N (?:10|11|20)\) \(N (\d+)\)", impl.get(c.id) or ""):
+            statuses[st] = statuses.get(st, 0) + 1
+    return {"answer_statuses_seen": dict(sorted(statuses.items())),
+            "histories_through_both_protocols": len(pairs),
             "requests_through_both_protocols": sum(len(c.x[1][5][1]) for c in pairs),
             "histories_through_complete_servers_(RunConfig::execute)": len([c for c in cases if c.comp == "proto.server"]),
             "bursts": len(bursts),
